@@ -35,7 +35,8 @@ pyyeti/nastran/n2p.py by the correspondence check.  Round-off is outside these s
   maps the rigid-body modes (relative to any reference point) of the independent DOF to those of the
   dependent DOF when the weights are positive and the independent rows have full column rank (the
   normal-equations argument), for every exact `solve`; `rbe3_um_indep`, `rbe3_um_mixed`, `rbe3_um_dep`: the
-  three `UM_List` re-partitions keep that property; `um_plan_*`: which branch the DOF bookkeeping takes.
+  three `UM_List` re-partitions keep that property; `um_plan_branch`, `um_plan_indep`, `um_plan_dep`: the
+  branch the DOF bookkeeping takes is determined by where the m-set DOF lie.
 * `chain_order_irrelevant`, `chain_circular_refused`, `chain_resolved`: `build_coords` does not depend on
   the order of the cards, refuses reference cycles / undefined references, and every entry of its
   dictionary is the A-B-C construction of its card relative to the entry of the card's reference.
@@ -354,33 +355,41 @@ example : IsPartition (fun _ : Fin 1 => (⟨1, by decide⟩ : Fin 3))
     · exact ⟨Sum.inl 0, rfl⟩
     · exact ⟨Sum.inr 1, rfl⟩
 
-/-- **partial** — the full statement "the branch taken by `formrbe3` matches where the m-set lies" fails on
-the unchanged code when the m-set holds the *first* dependent DOF and otherwise independent DOF
-(`um_plan_indep_counterexample`: the code raises); it holds when the first dependent DOF is not in the m-set -/
-theorem um_plan_indep_partial {ddof idof mdof : List Nat} {nuset : Nat} {p : UmPlan}
-    (hfirst : ∀ k, ddof.head? = some k → k ∉ mdof)
+/-- which `UM_List` branch `formrbe3` takes: by where the m-set DOF lie, nothing else -/
+theorem um_plan_branch {ddof idof mdof : List Nat} {nuset : Nat} {p : UmPlan}
+    (h : umPlan ddof idof mdof nuset = some p) :
+    (p.branch = .indep ↔ ∀ k ∈ mdof, k ∉ ddof) ∧
+    (p.branch = .dep ↔ (∃ k ∈ mdof, k ∈ ddof) ∧ ∀ k ∈ mdof, k ∉ idof) ∧
+    (p.branch = .mixed ↔ (∃ k ∈ mdof, k ∈ ddof) ∧ ∃ k ∈ mdof, k ∈ idof) :=
+  umPlan_spec h
+
+/-- the branch "m-set inside the independent set": no m-set DOF is dependent, all are independent -/
+theorem um_plan_indep {ddof idof mdof : List Nat} {nuset : Nat} {p : UmPlan}
     (h : umPlan ddof idof mdof nuset = some p) (hb : p.branch = .indep) :
     (∀ k ∈ mdof, k ∉ ddof ∧ k ∈ idof) ∧ p.im = positions idof mdof
       ∧ p.inn = complIdx (positions idof mdof) idof.length :=
-  umPlan_indep_partial hfirst h hb
+  umPlan_indep h hb
 
-/-- **partial** — fails on the unchanged code when the m-set holds the *first* independent DOF and
-otherwise dependent DOF (`um_plan_dep_counterexample`: 5 rows are returned for a 6-DOF m-set) -/
-theorem um_plan_dep_partial {ddof idof mdof : List Nat} {nuset : Nat} {p : UmPlan}
-    (hfirst : ∀ k, idof.head? = some k → k ∉ mdof)
+/-- the branch "m-set = dependent DOF": no m-set DOF is independent -/
+theorem um_plan_dep {ddof idof mdof : List Nat} {nuset : Nat} {p : UmPlan}
     (h : umPlan ddof idof mdof nuset = some p) (hb : p.branch = .dep) :
     (∀ k ∈ mdof, k ∉ idof) ∧ p.dm = positions ddof mdof :=
-  umPlan_dep_partial hfirst h hb
+  umPlan_dep h hb
 
-theorem um_plan_dep_counterexample :
-    (umPlan [24, 25, 26, 27, 28, 29] [0, 1, 2, 6, 7, 8, 12, 13, 14, 18, 19, 20]
-      [0, 24, 25, 26, 27, 28] 30).map (fun p => (p.branch, p.dm)) = some (.dep, [0, 1, 2, 3, 4]) :=
-  umPlan_dep_counterexample
+/-- the two inputs that went wrong before the repair 959e8e9 (truth value of an index array): the m-set
+holds the first independent DOF (uset row 0) and five dependent DOF -> mixed branch, 5 + 1 = 6 rows -/
+example : (umPlan [24, 25, 26, 27, 28, 29] [0, 1, 2, 6, 7, 8, 12, 13, 14, 18, 19, 20]
+      [0, 24, 25, 26, 27, 28] 30).map (fun p => (p.branch, p.dm, p.dn, p.im, p.rowOrd.length))
+    = some (.mixed, [0, 1, 2, 3, 4], [5], [0], 6) := by decide
 
-theorem um_plan_indep_counterexample :
-    umPlan [24, 25, 26, 27, 28, 29] [0, 1, 2, 6, 7, 8, 12, 13, 14, 18, 19, 20]
-      [1, 2, 6, 8, 13, 24] 30 = none :=
-  umPlan_indep_counterexample
+/-- … and the m-set is the single (first) dependent DOF -> "m-set = dependent DOF", one row -/
+example : (umPlan [26] [0, 1, 2, 6, 7, 8, 12, 13, 14, 18, 19, 20] [26] 30).map
+    (fun p => (p.branch, p.dm, p.rowOrd.length)) = some (.dep, [0], 1) := by decide
+
+/-- … and the first dependent DOF with five independent DOF -> mixed branch (used to raise) -/
+example : (umPlan [24, 25, 26, 27, 28, 29] [0, 1, 2, 6, 7, 8, 12, 13, 14, 18, 19, 20]
+      [1, 2, 6, 8, 13, 24] 30).map (fun p => (p.branch, p.dm, p.im, p.rowOrd.length))
+    = some (.mixed, [0], [1, 2, 3, 5, 7], 6) := by decide
 
 example : (umPlan [24, 25, 26, 27, 28, 29] [0, 1, 2, 6, 7, 8] [0, 1, 2, 6, 7, 8] 30).map (·.branch)
     = some .indep := by decide
